@@ -3,7 +3,9 @@ package vh
 // C14 Live project update converges to the new config with minimal disturbance.
 
 import (
+	"encoding/json"
 	"fmt"
+	"github.com/f1bonacc1/process-compose/src/types"
 	"sort"
 	"strings"
 	"time"
@@ -292,6 +294,61 @@ func c14Scenarios(tier string) []*Scenario {
 			for _, e := range tr {
 				if e.Proc == key0("b") && (e.Kind == "signal" || e.Kind == "exit") {
 					vs = append(vs, viol("C14", "restarted-unchanged:same", "process b is untouched by the edit of a but got a %s", e.Kind))
+					break
+				}
+			}
+			return vs
+		}
+		scs = append(scs, sc)
+	}
+	// the same configuration sent the way the REST route receives it (encoded as JSON and decoded again, which
+	// turns every number of vars / extensions into a float64): nothing has changed
+	{
+		init := map[string]c14Proc{"a": c14Base(), "b": c14Base()}
+		y := c14Project(init)
+		for _, n := range []string{"a", "b"} {
+			y = strings.Replace(y, "  "+n+":\n", "  "+n+":\n    vars:\n      BIG: 1048576\n      SMALL: 3\n      RATIO: 0.5\n", 1)
+		}
+		sc := &Scenario{ID: "c14-json-roundtrip:same", YAML: y, K: 0, EnvCost: 1, Horizon: 100 * time.Second,
+			Procs: map[string]*ProcScript{"d": {Launches: exits(0)}, "a": {}, "b": {}}}
+		ready := func(w *World) bool {
+			alive := 0
+			for _, f := range w.procs {
+				if f.Alive() && f.Name != "d" {
+					alive++
+				}
+			}
+			return alive == 2 && w.launches["d#0"] > 0
+		}
+		sc.API = [][]APICall{{{Op: "fn", Name: "update-json", When: ready, Fn: func(w *World) (string, error) {
+			p, err := w.LoadYAML("same.yaml", y)
+			if err != nil {
+				return "", err
+			}
+			enc, err := json.Marshal(p)
+			if err != nil {
+				return "", err
+			}
+			var p2 types.Project
+			if err := json.Unmarshal(enc, &p2); err != nil {
+				return "", err
+			}
+			st, err := w.Runner.UpdateProject(&p2)
+			return fmt.Sprint(st), err
+		}}}}
+		sc.Check = func(w *World) []Violation {
+			var vs []Violation
+			tr := w.pre()
+			ret := findEvent(tr, 0, func(e Event) bool { return e.Kind == "api-ret" })
+			if ret < 0 {
+				return nil
+			}
+			if len(w.apiRes) > 0 && w.apiRes[0].Done && w.apiRes[0].Val != "map[]" {
+				vs = append(vs, viol("C14", "status-map:same-over-json", "an unchanged project sent as JSON is answered with %s", w.apiRes[0].Val))
+			}
+			for _, e := range tr {
+				if (e.Proc == key0("a") || e.Proc == key0("b")) && (e.Kind == "signal" || e.Kind == "exit") {
+					vs = append(vs, viol("C14", "restarted-unchanged:same-over-json", "process %s is unchanged by the update but got a %s", e.Proc, e.Kind))
 					break
 				}
 			}
